@@ -212,7 +212,15 @@ def drive(tier):
         frames[ch] = []
         for m in msgs:
             k, pm = call(proj_msg, m)
-            k2, b = call(m.to_bytes)
+            if len(frames[ch]) % 3 == 2:
+                # the other public way to the frame: writing to a stream
+                def via_stream():
+                    f_ = io.BytesIO()
+                    m.stream_serialize(f_)
+                    return f_.getvalue()
+                k2, b = call(via_stream)
+            else:
+                k2, b = call(m.to_bytes)
             if k == "exc":
                 continue
             R.add("p2p.frame", {"msg": pm}, {"k": "ret", "bytes": b2l(b)} if k2 == "ret" else dict(exc_info(b), k="exc"), chain=ch,
@@ -233,8 +241,24 @@ def drive(tier):
                     break
         small = [b for b in frames[ch] if len(b) < 400]
         # single frames and multi-frame streams
-        for b in frames[ch]:
+        for bi_, b in enumerate(frames[ch]):
             stream(b, "single")
+            if bi_ % 4 == 0:
+                # ... and the other public way to parse one: from_bytes
+                import contextlib
+                tid = R.new_tid()
+                R.add("p2p.open", {"bytes": b2l(b), "note": "from_bytes"}, {}, chain=ch, tid=tid, k=0)
+                with contextlib.redirect_stdout(io.StringIO()):
+                    kf, vf = call(M.MsgSerializable.from_bytes, b)
+                if kf == "ret" and vf is not None:
+                    kk_, pm_ = call(proj_msg, vf)
+                    kr_, rb_ = call(vf.to_bytes)
+                    o_ = {"k": "msg", "m": pm_ if kk_ == "ret" else {}, "pos": len(b), "reframed": b2l(rb_) if kr_ == "ret" else [-1]}
+                elif kf == "ret":
+                    o_ = {"k": "none", "pos": len(b)}
+                else:
+                    o_ = dict(exc_info(vf), k="exc", pos=len(b))
+                R.add("p2p.read", {}, o_, tid=tid, k=1)
         for _ in range(10 if tier == "quick" else 100):
             stream(b"".join(r.choice(small) for _ in range(r.randrange(2, 6))), "multi")
         # version messages as older protocol versions lay them out (the writer cannot produce these: framed by hand)
